@@ -935,7 +935,7 @@ def persist_hostile(run):
     for _ in range(20000 if T else 1500):
         n = r.choice([0, 1, 2, 3, 5, 8, 12, 20, 40, 100, 300])
         cases.append(("persist-random", biased_random(r, n) if r.random() < 0.8 else bytes(r.getrandbits(8) for _ in range(n))))
-    fp0 = SL.table_fingerprint(classes=False)
+    fp0 = SL.table_fingerprint()
     hangs = 0
     maxops = (0.0, None)
     with SL.StateGuard() as guard, SL.KeyOracle() as ko:
@@ -967,7 +967,7 @@ def persist_hostile(run):
                 run.oracle_violation("undocumented-exception", dict(case, exception=type(exc).__name__, code=code), site)
             if exc is None and not closed_over(value, gclasses):
                 run.oracle_violation("result-not-closed", dict(case, value_type=type(value).__name__), site)
-            if SL.table_fingerprint(classes=False) != fp0:
+            if SL.table_fingerprint() != fp0:
                 run.oracle_violation("process-state-changed", dict(case, changed=guard.diff()[:6]), site)
                 guard.restore()
             ops, exceeded, _ = SL.count_ops(lambda: S.Serializable.load_persistant(data), OPS_PER_BYTE * n + OPS_CONST)
@@ -976,7 +976,7 @@ def persist_hostile(run):
                                                                  bound="%d*len+%d" % (OPS_PER_BYTE, OPS_CONST)), site)
             elif n >= 16:
                 maxops = max(maxops, (ops / n, fam))
-            if SL.table_fingerprint(classes=False) != fp0:
+            if SL.table_fingerprint() != fp0:
                 guard.restore()
             run.count("persist_ok" if exc is None else "persist_err_%d" % code)
             run.nt(("persist", data))
